@@ -312,6 +312,45 @@ fn panic_scn(timer: bool, q: Option<u32>, t: Option<u32>) -> Scn {
   sc
 }
 
+/// two thread-backed inputs under amb / skip_until: the first item makes the operator drop one input
+/// (a partial abort) while the main thread unsubscribes the whole - the other input's worker must go too,
+/// although that input stays silent afterwards
+fn partial_abort_scn(skip_until: bool, q: Option<u32>, t: Option<u32>) -> Scn {
+  let name = format!("c15/{} of two observe_on inputs: the first item drops one input || unsubscribe, then silence", if skip_until { "skip_until" } else { "amb" });
+  let mut sc = scn(&name, "worker-threads-exit", q, t, move || {
+    let rec = Rec::new();
+    let rec2 = rec.clone();
+    let body: Body = Box::new(move || {
+      let (h1, h2) = (Hot::<i64>::new(), Hot::<i64>::new());
+      let (a, b) = (h1.observable().observe_on(nt()), h2.observable().observe_on(nt()));
+      let o = if skip_until { a.skip_until(b) } else { b.amb(&[a]) };
+      let sub = rec2.sub_i64(&o);
+      // skip_until: the trigger (h2) fires; amb: input h2 emits first and wins
+      let hx = h2.clone();
+      let th = thread::spawn(move || hx.next(1));
+      sub.unsubscribe();
+      let _ = th.join();
+      thread::sleep(ms(200));
+    });
+    let check: Check = Box::new(move |e2: &ExecEnd| {
+      let mut v = base_violations(e2, &[]);
+      let live = unfinished_threads(e2);
+      if !live.is_empty() {
+        let parked: Vec<usize> = e2.cond_blocked();
+        v.push(viol(
+          if live.iter().all(|t| parked.contains(t)) { "leaked-worker-parked-forever" } else { "thread-still-alive" },
+          format!("threads {:?} have not exited although the subscription was unsubscribed long ago; {}", live, thread_summary(e2)),
+        ));
+      }
+      Verdict { outcome: format!("{} | {}", rec.short(), thread_summary(e2)), violations: v }
+    });
+    (body, check)
+  });
+  sc.min_conflicts = 1;
+  sc.cfg.max_steps = 60_000;
+  sc
+}
+
 pub fn c15_scenarios() -> Vec<Scn> {
   use Creator::*;
   use Ending::*;
@@ -340,6 +379,8 @@ pub fn c15_scenarios() -> Vec<Scn> {
       }
     }
   }
+  v.push(partial_abort_scn(false, Some(1), Some(2)));
+  v.push(partial_abort_scn(true, Some(1), Some(2)));
   v.push(panic_scn(false, Some(1), Some(2)));
   v.push(panic_scn(true, Some(1), Some(2)));
   v
@@ -685,6 +726,33 @@ pub fn c16_scenarios() -> Vec<Scn> {
       }
     },
   ));
+  // ... the same with a slow consumer (6 ms per item): the source completes with an item pending while the
+  // consumer is busy and the trigger fires in between - an implementation that flushes the pending item at
+  // the source's completion must not hand it out a second time
+  for op in ["sample", "debounce"] {
+    v.push(time_scn(
+      &format!("c16/{}(10ms) over a source thread with gaps [3, 4], slow consumer, the source completes at once", op),
+      Some(1),
+      Some(2),
+      move |rec, causes| {
+        let src = threaded_source("a", vec![Emit::N(1), Emit::N(2), Emit::C], vec![3, 4, 0], causes.clone());
+        let o = if op == "sample" { src.sample(observables::interval(ms(10), nt())) } else { src.debounce(ms(10), nt()) };
+        let _s = rec.sub_i64(&o);
+        thread::sleep(ms(120));
+      },
+      move |tm, _, _| {
+        let items: Vec<i64> = tm.iter().filter_map(|x| if let EvK::Next(v) = x.k { Some(v) } else { None }).collect();
+        let mut sorted = items.clone();
+        sorted.sort();
+        sorted.dedup();
+        let mut vs = vec![];
+        if sorted != items || items.iter().any(|x| !(1..=2).contains(x)) {
+          vs.push(viol("not-a-subsequence-of-the-source", format!("got {}", show_timed(tm))));
+        }
+        vs
+      },
+    ));
+  }
   // sample / debounce: only items the source emitted, in source order, none twice
   for op in ["sample", "debounce"] {
     for (gi, gaps) in [vec![3u64, 7, 13, 27], vec![7, 3, 3, 13]].into_iter().enumerate() {
